@@ -321,7 +321,15 @@ func runCrash(o *opts, fault bool) {
 				en = errnos[(k+si)%len(errnos)]
 				mode = []string{"--fail", fmt.Sprint(k), fmt.Sprint(en)}
 			}
+			if fault {
+				mode = append(mode, "--nofail", filepath.Join(pk.Root, ".dud", "lock"))
+			}
 			rc, _ := runMon(pk, sc.env, filepath.Join(base, "k.log"), mode, sc.args)
+			// the order of the calls differs between runs (worker goroutines): what was disturbed
+			// is read from THIS run's log, not from the undisturbed run's
+			if actual, ok := parseCalls(filepath.Join(base, "k.log"), pk)[k]; ok {
+				call = actual
+			}
 			W := pk.observe()
 			id++
 			specs := want(40, 41, 42, 48)
